@@ -53,10 +53,18 @@ def _case(draw, tier):
         case["keys"] = keys
     else:
         ntargets = draw(st.integers(1, 3))
-        case["init"] = [
-            draw(st.sampled_from(["policies", "policies", "table.entry"]))
-            for _ in range(ntargets)
-        ]
+        init = []
+        for _ in range(ntargets):
+            how = draw(st.sampled_from(["policies", "policies", "table.entry", "prefilled",
+                                        "table.prefilled"]))
+            if how.endswith("prefilled"):
+                # an entry created with an initial value and tags: the model sees these as
+                # offers made before the history starts (NONE: no tag, ANY: at most one)
+                ntags = {"ALL": 3, "ANY": 1, "NONE": 0}[ret]
+                tags = draw(st.lists(st.sampled_from(TAGS[1:]), max_size=ntags, unique=True))
+                how = [how, draw(st.sampled_from(VALUES[:3])), tags]
+            init.append(how)
+        case["init"] = init
     nvals = 3 if draw(st.integers(0, 3)) else 4  # infinite offers in a quarter of the runs
     max_ops = 12 if tier == "thorough" else 8
     ops = []
@@ -204,12 +212,23 @@ def execute(case, focus=None):
         getters = [lambda k=k: cell(k) for k in keys]
     else:
         helper = dp.Table((dp.DictDimension(),), merge, ret)
-        entries = [
-            dp.Entry(merge, ret) if how == "policies" else helper.entry()
-            for how in case["init"]
-        ]
+        entries, offers = [], []
+        for how in case["init"]:
+            if how == "policies":
+                entries.append(dp.Entry(merge, ret))
+                offers.append([])
+            elif how == "table.entry":
+                entries.append(helper.entry())
+                offers.append([])
+            else:
+                kind_, value, tags = how
+                if kind_ == "prefilled":
+                    entries.append(dp.Entry(value, list(tags), merge, ret))
+                else:
+                    entries.append(helper.entry(value, list(tags)))
+                offers.append([(value, t) for t in tags] or [(value, None)])
+                run.probe("prefilled_entry")
         ntargets = len(entries)
-        offers = [[] for _ in entries]
         getters = [lambda e=e: e for e in entries]
 
     def check_all(where):
@@ -320,7 +339,8 @@ def describe(pid):
                 "(values {0,1,2,inf} x tags {none,a,b,c}, via update() or table[k]=c), reads "
                 "under a drawn iteration order, reads of never-written cells and combines with "
                 "a drawn pair-weight table, on 1-3 standalone entries or 1-3 cells of one 1-3 "
-                "dimensional List/Dict table, for the 2x3 policy combinations; after every "
+                "dimensional List/Dict table (standalone entries created from the policies, by "
+                "table.entry(), or pre-filled with a value and tags), for the 2x3 policy combinations; after every "
                 "operation every target is compared with the list-of-offers model. A run is "
                 "non-trivial if it contains a multi-candidate batch, a permuted iteration or a "
                 "combine over more than one pair; distinct = distinct case digest.",
@@ -332,5 +352,6 @@ def describe(pid):
             "an all-infinite offer to a table cell counts as 'never written': its tags may be dropped",
             "seeded sampling, not exhaustive enumeration",
         ],
-        "probes_expected": ["order_permuted", "untagged_offer", "unwritten_read", "combine_pairs>1"],
+        "probes_expected": ["order_permuted", "untagged_offer", "unwritten_read", "combine_pairs>1",
+                            "prefilled_entry"],
     }
